@@ -31,11 +31,17 @@ Theorem C07_boundaries_errors : forall n k,
 Proof. exact boundaries_err. Qed.
 Print Assumptions C07_boundaries_errors.
 
-Theorem C07_fold_errors : forall (A : Type) (text : list A) k,
-  (k < 1)%Z \/ (Z.of_nat (length text) < k)%Z -> k <> 1%Z ->
-  fold text k None = Raise ValueError.
+(* ... in every case: k = 1 and caller-given boundaries included (fix 3836b17) *)
+Theorem C07_fold_errors : forall (A : Type) (text : list A) k (fb : option (list nat)),
+  (k < 1)%Z \/ (Z.of_nat (length text) < k)%Z ->
+  fold text k fb = Raise ValueError.
 Proof. exact @fold_errors. Qed.
 Print Assumptions C07_fold_errors.
+
+Theorem C07_fold_empty_raises : forall (A : Type) (k : Z) (fb : option (list nat)),
+  fold (@nil A) k fb = Raise ValueError.
+Proof. exact @fold_empty_raises. Qed.
+Print Assumptions C07_fold_empty_raises.
 
 (* fold never fails on valid boundaries and returns fold_spec *)
 Theorem C07_fold_with_ok : forall (A : Type) (text : list A) b,
@@ -48,6 +54,13 @@ Theorem C07_fold_default_ok : forall (A : Type) (text : list A) k,
   fold text k None = Ok (fold_spec text (default_bounds (length text) (Z.to_nat k))).
 Proof. exact @fold_default_ok. Qed.
 Print Assumptions C07_fold_default_ok.
+
+(* caller-given boundaries are used once the fold count has been accepted *)
+Theorem C07_fold_custom_ok : forall (A : Type) (text : list A) k b,
+  (2 <= k)%Z -> (k <= Z.of_nat (length text))%Z -> valid_bounds b ->
+  fold text k (Some b) = Ok (fold_spec text b).
+Proof. exact @fold_custom_ok. Qed.
+Print Assumptions C07_fold_custom_ok.
 
 Theorem C07_fold_count : forall (A : Type) (text : list A) b, valid_bounds b ->
   length (fst (fold_spec text b)) = length b /\ length (snd (fold_spec text b)) = length b.
@@ -92,9 +105,9 @@ Theorem C07_unfold_transformed : forall (A B : Type) (R : A -> B -> Prop) (text 
 Proof. exact @unfold_transformed. Qed.
 Print Assumptions C07_unfold_transformed.
 
-Theorem C07_k1 : forall (A : Type) (text : list A) fb,
+Theorem C07_k1 : forall (A : Type) (text : list A) fb, text <> [] ->
   fold text 1 fb = Ok ([text], [0]) /\ unfold [text] [0] = Ok text.
-Proof. intros; split; [exact (fold_one_fold text fb) | exact (unfold_single text)]. Qed.
+Proof. intros A text fb H; split; [exact (fold_one_fold text fb H) | exact (unfold_single text)]. Qed.
 Print Assumptions C07_k1.
 
 (* non-vacuity: a concrete valid boundary vector, and the docstring example *)
@@ -103,4 +116,9 @@ Proof. repeat split; simpl; lia. Qed.
 Example C07_fold_example :
   fold [1;2;3;4;5;6;7]%Z 3 (Some [0;2;4])
   = Ok ([[1;2;3;4;5;6;7]; [5;6;7;1;2;3;4]; [3;4;5;6;7;1;2]]%Z, [4;5;5]).
+Proof. vm_compute. reflexivity. Qed.
+(* an invalid fold count is refused also with k = 1 or caller-given boundaries *)
+Example C07_fold_k1_empty : fold (@nil Z) 1 None = Raise ValueError.
+Proof. vm_compute. reflexivity. Qed.
+Example C07_fold_custom_bad_count : fold [1;2;3]%Z 4 (Some [0;2]) = Raise ValueError.
 Proof. vm_compute. reflexivity. Qed.
